@@ -4,3 +4,4 @@ pub mod fkref;
 pub mod m3;
 pub mod par;
 pub mod robots;
+pub mod stack;
